@@ -656,6 +656,74 @@ Lemma gen_ReservedCBORTagNumberRange_eq :
   GoFuncs.ReservedCBORTagNumberRange = (c_minInternalCBORTagNumber, c_maxInternalCBORTagNumber).
 Proof. reflexivity. Qed.
 
+(* IsCBORTagNumberRangeAvailable: the answer the application gets when it asks whether it may use the CBOR
+   tag numbers lo..hi for its own values.  Specification: error exactly for an empty (reversed) range;
+   otherwise "available" exactly when NO number of the range lies in the reserved interval, and then in
+   particular none of the ten tags the slab codec writes (246..255) can be confused with an application tag
+   — the "self-describing" half of C07 at the boundary with the application's own encoding. *)
+Definition internal_codec_tags : list N :=
+  [ c_CBORTagTypeInfoRef; c_CBORTagInlinedArrayExtraData; c_CBORTagInlinedMapExtraData;
+    c_CBORTagInlinedCompactMapExtraData; c_CBORTagInlinedArray; c_CBORTagInlinedMap;
+    c_CBORTagInlinedCompactMap; c_CBORTagInlineCollisionGroup; c_CBORTagExternalCollisionGroup;
+    c_CBORTagSlabID ].
+
+Lemma internal_codec_tags_reserved :
+  forall t, In t internal_codec_tags -> c_minInternalCBORTagNumber <= t <= c_maxInternalCBORTagNumber.
+Proof.
+  intros t Ht. unfold internal_codec_tags in Ht. cbn [In] in Ht.
+  unfold c_minInternalCBORTagNumber, c_maxInternalCBORTagNumber.
+  repeat (destruct Ht as [Ht | Ht]; [subst t; vm_compute; split; discriminate|]). contradiction.
+Qed.
+
+Lemma gen_IsCBORTagNumberRangeAvailable_error :
+  forall lo hi, GoFuncs.IsCBORTagNumberRangeAvailable lo hi = None <-> hi < lo.
+Proof.
+  intros lo hi. unfold GoFuncs.IsCBORTagNumberRangeAvailable.
+  destruct (hi <? lo) eqn:E; split; intro H; try discriminate; try reflexivity; lia.
+Qed.
+
+Lemma gen_IsCBORTagNumberRangeAvailable_spec :
+  forall lo hi, lo <= hi ->
+    exists b, GoFuncs.IsCBORTagNumberRangeAvailable lo hi = Some b /\
+      (b = true <-> forall t, lo <= t <= hi ->
+                      ~ (c_minInternalCBORTagNumber <= t <= c_maxInternalCBORTagNumber)).
+Proof.
+  intros lo hi Hle. unfold GoFuncs.IsCBORTagNumberRangeAvailable.
+  destruct (hi <? lo) eqn:E; [lia|].
+  eexists; split; [reflexivity|].
+  unfold GoFuncs.k_minInternalCBORTagNumber, GoFuncs.k_maxInternalCBORTagNumber,
+         c_minInternalCBORTagNumber, c_maxInternalCBORTagNumber.
+  split.
+  - intros Hb t Ht Hr.
+    destruct (hi <? 240) eqn:E1; destruct (255 <? lo) eqn:E2; cbn [orb] in Hb; try discriminate; lia.
+  - intro Hall.
+    destruct (hi <? 240) eqn:E1; destruct (255 <? lo) eqn:E2; cbn [orb]; try reflexivity.
+    exfalso.
+    destruct (lo <? 240) eqn:E3.
+    + apply (Hall 240); lia.
+    + apply (Hall lo); lia.
+Qed.
+
+Lemma gen_available_range_excludes_codec_tags :
+  forall lo hi, GoFuncs.IsCBORTagNumberRangeAvailable lo hi = Some true ->
+    forall t, In t internal_codec_tags -> ~ (lo <= t <= hi).
+Proof.
+  intros lo hi H t Ht Hin.
+  assert (Hle : lo <= hi) by lia.
+  destruct (gen_IsCBORTagNumberRangeAvailable_spec lo hi Hle) as [b [Hb Hspec]].
+  rewrite H in Hb. injection Hb as <-.
+  apply (proj1 Hspec eq_refl t Hin). apply internal_codec_tags_reserved. exact Ht.
+Qed.
+
+Example gen_example_tag_ranges :
+  GoFuncs.IsCBORTagNumberRangeAvailable 128 239 = Some true /\
+  GoFuncs.IsCBORTagNumberRangeAvailable 128 240 = Some false /\
+  GoFuncs.IsCBORTagNumberRangeAvailable 255 300 = Some false /\
+  GoFuncs.IsCBORTagNumberRangeAvailable 256 300 = Some true /\
+  GoFuncs.IsCBORTagNumberRangeAvailable 100 600 = Some false /\
+  GoFuncs.IsCBORTagNumberRangeAvailable 5 4 = None.
+Proof. vm_compute. repeat split. Qed.
+
 (* ------------------------------------------------------------------------------------------ *)
 (* non-vacuity: concrete values on both sides                                                  *)
 (* ------------------------------------------------------------------------------------------ *)
